@@ -19,4 +19,20 @@ def queries(ctx):
         q.models = ("vlibc.c", "vfs.c", "vsys.c")
         q.defines = tuple(q.defines) + ("HAVE_VSYS=1",)
         qs.append(q)
+    # overlong ident / path template with error logging on: the error report must not re-enter the failing output without bound
+    import dataclasses
+    from runner import Unit
+    for sel, nm in ((0, "ident"), (3, "path")):
+        q = oc.out_query(sel, kf=(), prefix="overlong_" + nm, extra_defines=("OVERLONG_TEMPLATE=1", "ARGMAXLEN=60", "V_PATHCAP=70"))
+        units = []
+        for u in q.units:
+            if isinstance(u, str) and u.endswith("devlogoutput.c"):
+                u = Unit(u, sed=((r"\b256\b", "2"),))        # SNOOPY_SYSLOG_IDENT_FORMAT_BUF_SIZE scaled 256 -> 2 (ident "ii" no longer fits)
+            units.append(u)
+        q.units = units
+        q.unwindset = tuple(x for x in q.unwindset if not x.startswith("strlen.0")) + ("harness.0:64", "harness.1:64", "harness.2:64", "harness.3:64", "harness.4:64", "harness.5:64", "harness.6:64", "harness.7:64", "harness.8:64", "strlen.0:72", "strstr.0:72", "strstr.1:72", "strcat.0:72", "strcat.1:72", "memcpy.0:72", "v_copy_bounded.0:72")
+        q.models = ("vlibc.c", "vfs.c", "vsys.c")
+        q.defines = tuple(q.defines) + ("HAVE_VSYS=1",)
+        q.bounds = "output %s with a %s template longer than its (scaled) buffer, error_logging on, all I/O succeeding: nearly concrete run; judged: termination, bounded error reporting (<= 6 opens/sockets), nothing left open" % (oc.OUTNAMES[sel], nm)
+        qs.append(q)
     return qs
